@@ -60,3 +60,4 @@ fn c16_frames_with_offset_bounded() {
     assert!(frames.len() == n && consumed == pos);
     assert!((n > 0) == (consumed > 0));
 }
+
